@@ -25,7 +25,9 @@ import (
 
 const T0 = int64(1_700_000_040_000_000_000) // multiple of one minute
 
-const splitCount = 120
+const splitCount = 400 // 0..119: transactions submitted to the host; 120..259 / 260..399: one per block of lineage M / N
+
+const hostSplit = 120
 
 type watch struct{}
 
@@ -190,7 +192,7 @@ func buildLineages(s *node.Settings, A, B *node.Wallet, length int) (P, M, N []*
 	for j := 0; j < splitCount; j++ {
 		wj := node.NewWallet(100 + j)
 		wallets = append(wallets, wj)
-		outs = append(outs, node.RawOutput{Address: wj.Address, IsYielding: false, Value: 60_000})
+		outs = append(outs, node.RawOutput{Address: wj.Address, IsYielding: false, Value: 20_000})
 	}
 	pa.Pool.Validate(T0 + s.Interval) // the genesis output is confirmed once a second block exists
 	tx, _, e := node.MakeTx([]node.Spend{{TxId: gid, Index: 0, By: A}}, outs, T0+s.Interval)
@@ -215,9 +217,29 @@ func buildLineages(s *node.Settings, A, B *node.Wallet, length int) (P, M, N []*
 	if e != nil {
 		return nil, nil, nil, nil, e
 	}
+	// every block beyond the prefix changes the derived state: one ordinary transaction (fee 5 000 => a reward output
+	// for the validator), every third one with a yielding output to a new address (=> a registration). A node that
+	// confirms a block too early or too late then differs from the replay of its chain.
 	for i := 4; i < length; i++ {
+		for li, p := range []*node.Node{pa, pb} {
+			k := hostSplit + li*140 + (i-4)%140
+			so := split[k]
+			to := node.NewWallet(2000 + li*1000 + i)
+			ltx, _, e := node.MakeTx([]node.Spend{{TxId: so.txId, Index: so.index, By: so.by}},
+				[]node.RawOutput{{Address: to.Address, IsYielding: i%3 == 0, Value: 15_000}}, p.Chain.LastBlockTimestamp())
+			if e != nil {
+				return nil, nil, nil, nil, e
+			}
+			p.Pool.AddTransaction(ltx, "", "")
+		}
 		pa.Pool.Validate(T0 + int64(i)*s.Interval)
 		pb.Pool.Validate(T0 + int64(i)*s.Interval)
+	}
+	for _, p := range []*node.Node{pa, pb} {
+		bl := p.AllBlocks()
+		if length > 6 && len(bl) > 5 && len(bl[5].Transactions()) != 2 {
+			return nil, nil, nil, nil, fmt.Errorf("lineage block 5 has %d transactions, expected 2: %v", len(bl[5].Transactions()), tailStr(p.Log.Snapshot(), 3))
+		}
 	}
 	M, N = pa.AllBlocks(), pb.AllBlocks()
 	if len(M) != length || len(N) != length {
@@ -278,10 +300,10 @@ func (w *World) request(j int, ts int64) ([]byte, string, error) {
 	if b, ok := w.reqCache[key]; ok {
 		return b, key, nil
 	}
-	so := w.Split[j%len(w.Split)]
+	so := w.Split[j%hostSplit]
 	to := node.NewWallet(1000 + j)
 	tx, _, err := node.MakeTx([]node.Spend{{TxId: so.txId, Index: so.index, By: so.by}},
-		[]node.RawOutput{{Address: to.Address, IsYielding: false, Value: 50_000}}, ts)
+		[]node.RawOutput{{Address: to.Address, IsYielding: false, Value: 15_000}}, ts)
 	if err != nil {
 		return nil, "", err
 	}
